@@ -222,7 +222,25 @@ func runCheck(propID, tier, repoDir, outDir string, overlay map[string][]byte, q
 		fmt.Printf("VIOLATION property=%s replay=%s\n", propID, rp)
 		exit = 1
 	}
+	var seeds []seedOutcome
+	if tier == "thorough" && overlay == nil {
+		seeds = runSeeds(spec, repoDir, outDir)
+		fired, expected, missed := 0, 0, 0
+		for _, s := range seeds {
+			if s.Fired {
+				fired++
+			}
+			if s.Expected {
+				expected++
+				if s.Applies && !s.Fired {
+					missed++
+				}
+			}
+		}
+		fmt.Printf("self-validation (advisory): %d seeded variants of %s analysed in memory, %d fired, %d of %d expected detections reproduced\n", len(seeds), propID, fired, expected-missed, expected)
+	}
 	wall := time.Since(start).Seconds()
+	thoroughSeeds = seeds
 	writeEvidence(outDir, spec, tier, prog, results, failures, wall, viol)
 	if !quiet {
 		tot, nrules := 0, 0
@@ -234,6 +252,8 @@ func runCheck(propID, tier, repoDir, outDir string, overlay map[string][]byte, q
 	}
 	return exit
 }
+
+var thoroughSeeds []seedOutcome
 
 func writeEvidence(outDir string, spec *PropertySpec, tier string, prog *Program, results []*RuleResult, failures []string, wall float64, viol []Finding) {
 	type ruleEv struct {
@@ -289,6 +309,10 @@ func writeEvidence(outDir string, spec *PropertySpec, tier string, prog *Program
 			nf += len(p.Syntax)
 		}
 		cov["analysed"] = map[string]any{"packages": len(prog.Pkgs), "files": nf, "load_s": prog.LoadS}
+	}
+	if thoroughSeeds != nil {
+		cov["seeded_variants"] = thoroughSeeds
+		cov["seeded_variants_note"] = "advisory checker self-validation: each stored seeded change was applied in memory and the rules re-run on the variant; never affects the verdict on the real tree"
 	}
 	if spec.Level == "proof" {
 		cov["obligations"] = total
